@@ -116,6 +116,7 @@ pub struct Sys {
     pub added: HashSet<Id>,
     /// the records the user handed to add_enr
     pub added_raw: HashSet<Vec<u8>>,
+    debug_bans: usize,
     pub established: HashSet<Id>,
     table_prev: Vec<(Id, Enr, bool, bool)>,
     records_seen: HashMap<Id, (u64, Vec<u8>)>,
@@ -154,6 +155,7 @@ impl Sys {
             stack,
             added: HashSet::new(),
             added_raw: HashSet::new(),
+            debug_bans: 0,
             established: HashSet::new(),
             table_prev: Vec::new(),
             records_seen: HashMap::new(),
@@ -328,6 +330,14 @@ impl Sys {
 
     fn after_step(&mut self, rep: &mut Report) {
         let now = self.w.now();
+        if std::env::var("DV5_DEBUG").is_ok() {
+            let bans = discv5::verif::ban_list_snapshot();
+            let n = bans.ban_nodes.len() + bans.ban_ips.len();
+            if n != self.debug_bans {
+                eprintln!("DEBUG {:?}: ban list now {:?} / {:?} after {:?}", now, bans.ban_ips.keys().collect::<Vec<_>>(), bans.ban_nodes.keys().map(|k| hx(&k.raw()[..4])).collect::<Vec<_>>(), self.w.last_injected.as_ref().map(|i| (i.from, i.tag.label.clone())));
+                self.debug_bans = n;
+            }
+        }
         let new_trace: Vec<(Duration, WEv)> = self.w.trace[self.trace_mark..].to_vec();
         self.trace_mark = self.w.trace.len();
         // events of this step
@@ -1814,6 +1824,14 @@ pub fn lookup(seed: u64, focus: Focus, rep: &mut Report) {
             let is_banned = |s: &Sys, i: usize| bans.ban_nodes.contains_key(&NodeId::new(&s.w.id(i))) || bans.ban_ips.contains_key(&s.w.nodes[i].sim.addr().ip());
             let liar_idx: HashSet<usize> = liars.iter().map(|(i, _)| *i).collect();
             for i in 0..s.w.nodes.len() {
+                // (the filter's quota in the tight variant is far below one answer: an answer that
+                // arrives after this node gave up on the request - because a datagram of an earlier
+                // exchange with that peer was lost and that request ran out - is unsolicited traffic
+                // and may exhaust the quota; only peers with a loss-free history are judged)
+                if !liar_idx.contains(&i) && is_banned(&s, i) && tight_filter && s.w.nodes[i].lost_any {
+                    rep.count("sys_honest_bans_not_judged_after_loss");
+                    continue;
+                }
                 if !liar_idx.contains(&i) && is_banned(&s, i) {
                     s.flag(rep, Focus::C11, "C11:honest-responder-banned", format!("node {i}, which answered every request as the protocol prescribes (or not at all), is on the ban list"), json!({"node": i}));
                 }
